@@ -4,6 +4,8 @@
 #include "lltdWire.c"
 #include "lltdTlvOps.c"
 
+#include "v_nocheck_push.h"      /* harness and specification code below: no implicit checks */
+
 static int v_ctx_obj;
 
 struct in_probe {
